@@ -124,7 +124,10 @@ _EXPECTED_KEY = '''
 def _get_resource_index_key(self, resource):
     if "{" in (index_key := resource.canonical):
         index_key = index_key.partition("{")[0].rpartition("/")[0]
-    return _path_safe(index_key.rstrip("/")) or "/"
+    index_key = index_key.rstrip("/")
+    if not isinstance(resource, PlainResource):
+        index_key = _path_safe(index_key)
+    return index_key or "/"
 '''
 
 _EXPECTED_PATH_SAFE = '''
@@ -281,7 +284,7 @@ def generate() -> str:
     _same_shape(F, "index_resource", "UrlDispatcher", _EXPECTED_INDEX)
     _same_shape(F, "unindex_resource", "UrlDispatcher", _EXPECTED_UNINDEX)
     out.append("(* _get_resource_index_key: canonical.partition(ik_brace)[0].rpartition(ik_sep)[0] when ik_brace occurs;\n"
-               "   then _path_safe(.rstrip(ik_sep)) or ik_sep *)\n"
+               "   then .rstrip(ik_sep), its _path_safe form unless the resource is a PlainResource, or ik_sep *)\n"
                "Definition ik_brace : N := 123.\nDefinition ik_sep : N := 47.\n")
     _walk_step()
     _repaired_shapes()
